@@ -66,3 +66,12 @@ Theorem C03_string_array_roundtrip :
   = Some (ss, 93 :: rest).
 Proof. exact string_array_value_roundtrip. Qed.
 Print Assumptions C03_string_array_roundtrip.
+
+(* arrays of byte strings: the element list written between ARRAY [ and ] decodes, under the engine's
+   byte-string lexer, to exactly the given byte strings *)
+Theorem C03_bytes_array_roundtrip :
+  forall b (bss : list (list N)) pre rest, bss <> [] -> Forall is_bytes bss ->
+  decode_bytes_array_at b pre (pre ++ array_open ++ join_lits (map (write_bytes b) bss) ++ 93 :: rest)
+  = Some (bss, 93 :: rest).
+Proof. exact bytes_array_roundtrip. Qed.
+Print Assumptions C03_bytes_array_roundtrip.
